@@ -294,6 +294,12 @@ def h_reaction(ctx, kind, form, q, units, rev, zpe=None):
             dim = getattr(rxn, 'get_%s_act' % q)(units=uu, T=T, rev=rev, **opts)
             nd = getattr(rxn, 'get_%s_act' % nd_name)(T=T, rev=rev, **opts)
             ctx.eq('%s_act(%s, rev=%s) = dimensionless x R%s' % (q, u, rev, '' if ext else ' x T'), dim, nd * fac)
+            if q == 'E':
+                # the Arrhenius form carries the change in molecularity
+                for dm in (0, -1, None):
+                    dim = rxn.get_E_act(units=uu, T=T, rev=rev, del_m=dm, **opts)
+                    nd = rxn.get_EoRT_act(T=T, rev=rev, del_m=dm, **opts)
+                    ctx.eq('E_act(%s, rev=%s, del_m=%s) = dimensionless x R x T' % (u, rev, dm), dim, nd * fac)
 
 
 def groups(tier):
